@@ -402,7 +402,7 @@ def part_history(ctx, rng, ents, gen, cases):
         add(hs)
         hs, n_alpha["gdf3"] = gen_histories(ctx, "GeoDataFrame family, all histories of length 3", maxlen=3, edit=True, emitfrom=3,
                                             proj=["none", "rob180"], eng=["sp", "gp"], projects=["TRUE"], flags="FlagsTwo", kinds=["gdf"])
-        add(hs, cap_clean=40000)
+        add(hs, cap_clean=25000)
         hs, n_alpha["gdf3p"] = gen_histories(ctx, "GeoDataFrame family with project=False, one engine, length 3", maxlen=3, edit=False, emitfrom=3,
                                              proj=["rob", "rob180"], eng=["sp"], projects=["TRUE", "FALSE"], flags="FlagsTwo", kinds=["gdf"], pe=["exclude", "ignore"], vars_=("ta",))
         add(hs, cap_clean=8000)
@@ -412,7 +412,7 @@ def part_history(ctx, rng, ents, gen, cases):
         hs, n_alpha["line3"] = gen_histories(ctx, "LineCollection family, all histories of length 3", maxlen=3, edit=True, emitfrom=3,
                                              proj=["none", "rob", "rob180"], eng=["sp"], projects=["TRUE"], flags="FlagsThree", kinds=["line"])
         add(hs)
-        nsim = 4000
+        nsim = 2000
     else:
         hs, n_alpha["pairs"] = gen_histories(ctx, "all histories of length <= 2, three families", maxlen=2, edit=True, emitfrom=1,
                                              proj=["none", "rob180"], eng=["sp", "gp"], projects=["TRUE"], flags="FlagsTwo", kinds=["gdf", "poly", "line"])
